@@ -409,3 +409,15 @@ package doublylinkedlist
 //@     invariant forall j :: 0 <= j && j <= iterator.index && j < len(Seq(list)) && f(j, Seq(list)[j]) ==> 0 <= dst[j] && dst[j] < len(Seq(newList)) && src[dst[j]] == j
 //@     decreases len(Seq(list)) - iterator.index
 
+
+//@ -- String: starts with the container's name; reads only (C15, C18)
+//@ func List.String
+//@   requires Inv(list)
+//@   modifies nothing
+//@   ghostvar k := 0
+//@   at backedge 1: k := k + 1
+//@   ensures [C15 C17 C18] hasPrefix(result, "DoublyLinkedList")
+//@   loop 1:
+//@     invariant 0 <= k && k <= list.size && (k < list.size ==> element == list.nodes[k]) && (k == list.size ==> element == nil)
+//@     invariant isnil(values) || fresh(arr(values))
+//@     decreases list.size - k
